@@ -520,7 +520,7 @@ def normRhs (lhs rhs : String) : String :=
 /-- returns the new state and the model's rendering of the right-hand side, or an error -/
 def stepLine (m : MState) (lhs : String) : Except String (MState × String) :=
   let toks := (lhs.trimAscii.toString.splitOn " ").filter (· ≠ "")
-  if outOfContract lhs && !(lhs.startsWith "spawn_cb_at") && !(lhs.startsWith "pspawn_at") then
+  if outOfContract lhs && !(lhs.startsWith "pspawn_at") then
     -- the duplicate check of `insert`/`exchange` runs after the entity lookup: a handle that is not
     -- live is answered NoSuchEntity (bundle dropped intact) without reaching it
     let early : Option (MState × String) :=
